@@ -29,33 +29,9 @@ def shard_env(tier, seed, i, n):
 def classify(spec, problems):
     from .. import kf
     return mcommon.kf6(spec, problems) or kf.classify_name_error(spec, problems) or \
-        kf16(spec, problems)
+        mcommon.kf16(spec, problems)
 
 
-def kf16(spec, problems):
-    """KF-16: an intersector bound to a rank that is not a loop rank of its Einsum (the
-    mapping splits it away: bound to K while the loops are K1, K0) is created before the loops
-    and queried in the dump but never fed.  Explains only 'queried but never fed', and only
-    when the bindings name such a rank for an intersector."""
-    from ..monitors import timemodel
-    y = spec.yaml()
-    arch = timemodel.arch_table(y)
-    binds = timemodel.bindings_table(y)
-    hit = False
-    for e in spec.exprs:
-        n = e.out.name
-        ent = binds.get(n) or {"config": None, "components": {}}
-        comps = (arch.get(ent["config"]) or {"components": {}})["components"]
-        lo = (spec.loop_order or {}).get(n) or []
-        for c, bl in ent["components"].items():
-            if comps.get(c, {}).get("class") == "intersector":
-                if any(isinstance(x, dict) and x.get("rank") not in lo for x in bl or []):
-                    hit = True
-    if not hit:
-        return None
-    if all(p.get("kind") == "intersector-queried-but-never-fed" for p in problems):
-        return "KF-16"
-    return None
 
 
 def run_one(st, spec, cs):
